@@ -42,7 +42,7 @@ pub enum Observed {
     Map(Vec<(Vec<u8>, Vec<u8>)>),
 }
 
-struct WakeCount(AtomicUsize);
+pub struct WakeCount(pub AtomicUsize);
 
 impl ArcWake for WakeCount {
     fn wake_by_ref(arc_self: &Arc<Self>) {
@@ -51,7 +51,7 @@ impl ArcWake for WakeCount {
 }
 
 /// Poll a future once, without any executor (a store bug must not be able to hang the harness).
-fn poll_once<T>(fut: &mut BoxFuture<'static, T>, wakes: &Arc<WakeCount>) -> Poll<T> {
+pub fn poll_once<T>(fut: &mut BoxFuture<'static, T>, wakes: &Arc<WakeCount>) -> Poll<T> {
     let waker = futures::task::waker(wakes.clone());
     let mut cx = Context::from_waker(&waker);
     fut.as_mut().poll(&mut cx)
@@ -120,6 +120,18 @@ pub fn diff(cell: &Cell, obs: &Observed) -> Option<(String, Json)> {
     }
 }
 
+
+/// An `Err` from a call that the traits document as succeeding: `Ok((signature, what))` of the
+/// violation. Resource exhaustion of the machine is not the store's fault: `Err(why)` (inconclusive).
+pub fn classify_store_error(op: &str, e: &StoreError) -> Result<(String, String), String> {
+    let text = format!("{e}");
+    if ["No space left", "Too many open files", "Cannot allocate memory"].iter().any(|m| text.contains(m)) {
+        return Err(format!("environment error during {op}: {}", sanitize_sig(&text)));
+    }
+    let variant = format!("{e:?}");
+    let variant: String = variant.chars().take_while(|c| c.is_ascii_alphanumeric()).collect();
+    Ok((format!("store-error/{op}/{variant}"), format!("{op} failed on a valid request: {text}")))
+}
 
 pub struct Runner<'s, B: Backend> {
     pub spec: &'s Spec,
@@ -211,9 +223,20 @@ impl<'s, B: Backend> Runner<'s, B> {
             .skip(self.history.len().saturating_sub(12))
             .map(|(n, s)| format!("#{n} {}", s.describe(self.spec)))
             .collect();
+        // The identifier of every item that has one (a witness of interference between items is
+        // only readable with them: e.g. identifiers 4 and 260 differ by a multiple of 256).
+        let mut identifiers: Vec<String> = Vec::new();
+        for a in 0..self.spec.agents.len() {
+            for i in 0..self.spec.agents[a].items.len() {
+                if let Some(id) = self.first_ids[a][i] {
+                    identifiers.push(format!("[{}]{} ({}) = {id:?}", esc_str(&self.spec.agents[a].uri), esc_str(&self.spec.agents[a].items[i].name), self.spec.kind(a, i)));
+                }
+            }
+        }
         json!({
             "scenario": self.context,
             "spec": self.spec.describe(),
+            "identifiers": identifiers,
             "steps_on_this_item_or_agent": related[skip..],
             "last_steps": tail,
             "steps_executed": self.history.len(),
@@ -226,22 +249,12 @@ impl<'s, B: Backend> Runner<'s, B> {
         self.viols.push(Viol { sig: sig.into(), what: what.into(), detail });
     }
 
-    /// An `Err` from a call that the traits document as succeeding. Resource exhaustion of the
-    /// machine is not the store's fault: inconclusive.
+    /// An `Err` from a call that the traits document as succeeding.
     fn store_error(&mut self, op: &str, e: &StoreError, about: Option<(usize, Option<usize>)>) {
-        let text = format!("{e}");
-        if ["No space left", "Too many open files", "Cannot allocate memory"].iter().any(|m| text.contains(m)) {
-            self.inconclusive = Some(format!("environment error during {op}: {}", sanitize_sig(&text)));
-            return;
+        match classify_store_error(op, e) {
+            Err(why) => self.inconclusive = Some(why),
+            Ok((sig, what)) => self.violation(sig, what, about, json!({ "error": format!("{e}") })),
         }
-        let variant = format!("{e:?}");
-        let variant: String = variant.chars().take_while(|c| c.is_ascii_alphanumeric()).collect();
-        self.violation(
-            format!("store-error/{op}/{variant}"),
-            format!("{op} failed on a valid request: {text}"),
-            about,
-            json!({ "error": text }),
-        );
     }
 
     fn ensure_plane(&mut self) -> bool {
@@ -572,8 +585,35 @@ impl<'s, B: Backend> Runner<'s, B> {
         None
     }
 
+    /// The identifier as a number, for stores whose identifiers print as one (coverage only).
+    fn id_num(&self, a: usize, i: usize) -> Option<u64> {
+        self.first_ids[a][i].and_then(|id| format!("{id:?}").parse().ok())
+    }
+
+    /// Coverage counter: a `clear_map` executed while another, non-empty map has an identifier
+    /// an exact multiple of 256 away (the two key prefixes differ only beyond their first byte).
+    fn note_clear(&mut self, a: usize, i: usize) {
+        let Some(me) = self.id_num(a, i) else { return };
+        let mut hit = false;
+        for b in 0..self.spec.agents.len() {
+            for j in 0..self.spec.agents[b].items.len() {
+                if (b, j) != (a, i) && matches!(&self.model.cells[b][j], Cell::Map(m) if !m.is_empty()) {
+                    if let Some(other) = self.id_num(b, j) {
+                        hit |= other != me && other.abs_diff(me) % 256 == 0;
+                    }
+                }
+            }
+        }
+        if hit {
+            self.count("clear_map_while_nonempty_map_has_id_multiple_of_256_away");
+        }
+    }
+
     fn mutate(&mut self, step: &'s Step, a: usize, i: usize) {
         let Some(id) = self.id_of(a, i) else { return };
+        if matches!(step, Step::Clear(..)) {
+            self.note_clear(a, i);
+        }
         let Some(node) = self.nodes[a].as_mut() else {
             self.inconclusive = Some("harness: mutation without node store".to_string());
             return;
@@ -709,6 +749,10 @@ impl<'s, B: Backend> Runner<'s, B> {
                 self.ensure_plane();
             }
             Step::IdFor(a, i) => self.do_id_for(*a, *i),
+            Step::Burn(n) => {
+                self.burn_ids(*n);
+                self.count("filler_names_registered_inside_history");
+            }
             Step::Get(a, i) | Step::Read(a, i) => self.check_read(*a, *i),
             Step::Put(a, i, _) | Step::Del(a, i) | Step::Upd(a, i, _, _) | Step::Rem(a, i, _) | Step::Clear(a, i) => {
                 self.mutate(step, *a, *i)
@@ -742,7 +786,8 @@ impl<'s, B: Backend> Runner<'s, B> {
     /// The filler identifiers must be pairwise distinct.
     pub fn burn_ids(&mut self, n: usize) {
         let Some(node) = self.filler_node() else { return };
-        for k in 0..n {
+        let from = self.burned.len();
+        for k in from..from + n {
             let name = format!("f{k}");
             match node.id_for(&name) {
                 Ok(id) => {
